@@ -70,7 +70,9 @@ fn plan(prop: &str, thorough: bool, seed: u64) -> Plan {
     }
     if let Some(lim) = std::env::var("VERIF_TASK_LIMIT").ok().and_then(|s| s.parse::<usize>().ok()) {
         // reduced workload for the sanitizer runs (valgrind / Miri): an even sample of the task list
-        if tasks.len() > lim && lim > 0 {
+        if lim == 0 {
+            tasks.clear();
+        } else if tasks.len() > lim {
             let step = tasks.len() / lim;
             tasks = tasks.into_iter().step_by(step.max(1)).take(lim).collect();
         }
